@@ -21,7 +21,7 @@ EXPLANATION = (
     "object carries between calls is only multiplied, added to or capped from above (a necessary condition of non-shrinking gaps). NOT "
     "decided: that PUBLISH gaps do not shrink from one retry to the next (random jitter and a caller-supplied factor below 1 are "
     "numeric, not structural). "
-    " R-VERSION - the protocol version that gates DUP on SUBSCRIBE/UNSUBSCRIBE/PUBREL repeats is recorded by the accepted connect() only, before anything can be repeated on the connection. "
+    " R-VERSION - the protocol version that gates DUP on SUBSCRIBE/UNSUBSCRIBE/PUBREL repeats is recorded by the accepted connect() only, before anything can be repeated on the connection. R-HOOK - the application's onMqttConnectionMade hook runs after the resume loops of the CONNACK: what it requests is not written a second time without a timer expiry. "
     " R-DUP also requires the dup field of a PUBLISH to be clear when publish() encodes it; R-DELAY that nothing is subtracted from the interval's value on the way to callLater (through locals and the callers of an arming helper).")
 ASSUMPTIONS = ["timing clauses of the property are not decided by this family"]
 
